@@ -800,6 +800,9 @@ def optNum : Option Nat → Value
   | some n => .num n
   | none => .absent
 def cond (c : Bool) (v : Value) : Value := if c then v else .absent
+def optStreamId : Option Packets.StreamId → Value
+  | some s => .num (s.queueId * 4 + bit s.reliable 2 + bit s.bidi 1)
+  | none => .absent
 
 /-- dissect.rs `stream`: tag bits 0x20 source queue id, 0x10 recovery, 0x08 control data, 0x04 final
     offset, 0x02 application header, 0x01 key phase; relative packet number iff the stream id is reliable -/
@@ -851,9 +854,7 @@ def control (i : Packets.ControlIn) : List (Field × Value) :=
     (⟨"path_secret_id", .bytes⟩, .bytes i.creds.id),
     (⟨"key_id", .varint⟩, .num i.creds.keyId),
     (⟨"wire_version", .u8⟩, .num 0),
-    (⟨"stream_id", .varint⟩, match i.streamId with
-        | some s => .num (s.queueId * 4 + bit s.reliable 2 + bit s.bidi 1)
-        | none => .absent),
+    (⟨"stream_id", .varint⟩, optStreamId i.streamId),
     (⟨"source_queue_id", .varint⟩, optNum i.sourceQueueId),
     (⟨"packet_number", .varint⟩, .num i.pn),
     (⟨"control_data_len", .varint⟩, .num i.controlData.length),
